@@ -295,7 +295,8 @@ def precedence(ctx):
     """parse() interpreted whole on unit-expression strings over symbolic unit values, against an independent reading of the grammar"""
     parse = ctx.fn(UC, 'parse')
     loc = UC + '::parse'
-    names = {n: sp.Symbol('U_' + n, positive=True) for n in ('m', 'kg', 's', 'eV', 'angstrom', 'GPa', 'mol', 'K')}
+    # (unit names are the attribute names of numericalunits: any Python identifier, so underscores and the middle dot of 'Hz·2π' belong to a name)
+    names = {n: sp.Symbol('U_' + n.replace('·', '_dot_'), positive=True) for n in ('m', 'kg', 's', 'eV', 'angstrom', 'GPa', 'mol', 'K', 'astro_unit', 'horsepower_metric', 'Hz·2π')}
 
     def run(text):
         ev = SymEval(module_aliases(ctx.mod(UC)))
@@ -324,7 +325,8 @@ def precedence(ctx):
     ctx.ob('PRECEDENCE', loc, 'an expression without parentheses follows ordinary precedence (^ first, then * and / left to right) on all %d operator patterns up to 4 operators' % npat, not bad, '; '.join(bad[:3]), node=parse)
     cases = ['(m)', '((m))', 'eV/(angstrom*s)', 'kg*m/s^2', '(kg*m)/(s^2)', 'kg*(m/s)^2', 'eV/(angstrom*(s/(mol*K)))^2', '(m/s)/(kg/(mol*s))*K', ' kg * m\t/ s ^ 2 ', 'm^-2', '1/s', '1e-10*m', '0.5*(eV/angstrom^3)', 'GPa/(1.5*K)',
              '((m*s)^2)^3', '(m)*(s)', 'm^(2)', '2.5', 'angstrom^3/mol*(K*(s))',
-             'm^0.5', 'GPa*m^0.5', 'm^-0.5', 'eV/angstrom^1.5', 'm^(1/2)', 'kg^(3/2)*s^-1.5']    # fracture toughness and the like: exponents are numbers, not only whole numbers
+             'm^0.5', 'GPa*m^0.5', 'm^-0.5', 'eV/angstrom^1.5', 'm^(1/2)', 'kg^(3/2)*s^-1.5',
+             'astro_unit', 'astro_unit/s', 'kg*astro_unit^2', 'horsepower_metric*s', 'Hz·2π', '(Hz·2π)^2*kg', '1/Hz·2π']    # fracture toughness and the like: exponents are numbers, not only whole numbers
     badc = []
     for text in cases:
         got, want = run(text), _ref_parse(text, names)
@@ -332,7 +334,7 @@ def precedence(ctx):
             badc.append('%r -> %s, expected %s' % (text, got, want))
     ctx.ob('PRECEDENCE', loc, 'parenthesised groups (nested to any depth) are reduced first and enter as one operand; white space is ignored; numbers (signed, decimal, exponent) are factors (%d expressions)' % len(cases), not badc,
            '; '.join(badc[:3]), node=parse, key='groups')
-    ctx.floor('PRECEDENCE/groups', len(cases), 25)
+    ctx.floor('PRECEDENCE/groups', len(cases), 32)
     refused = ['(m', 'm)', '(m*(s)', 'm*s)', 'm s', 'm$', '(m)(s)', 'm*/s']
     acc = [t for t in refused if run(t) != 'raise']
     ctx.ob('PRECEDENCE', loc, 'malformed expressions are refused, not mis-evaluated: unmatched parenthesis either way, adjacent operands, unknown character, doubled operator', not acc, 'accepted: %s' % acc, node=parse, key='refusals')
